@@ -90,138 +90,286 @@ def _edge_constraints(b, bb, F):
     return None
 
 
+# ---------------------------------------------------------------------------
+# abstract interpretation of a serial comparison over the seven RFC 1982 cases
+# ---------------------------------------------------------------------------
+#
+# A case fixes r1 = the relation of the two operands as unsigned integers and
+# r2 = the relation of their distance |a-b| to 2^31.  Every quantity a serial
+# comparison computes is one of: an operand, a distance (exact, absolute or
+# wrapping), a constant, a boolean, an Ordering, an Option<Ordering>.  Each
+# MIR statement is evaluated over these abstract values; a switch whose
+# discriminant the case does not determine, or an operation outside the
+# vocabulary (signed casts, checked arithmetic, ...), makes the shape
+# "not recognised" (fail closed).  Nothing is executed on concrete numbers.
+
+CASES = [("=", None), ("<", "<"), ("<", "="), ("<", ">"), (">", "<"), (">", "="), (">", ">")]
+ORD_OF_REL = {"<": "Less", "=": "Equal", ">": "Greater"}
+ORD_DISCR = {"Less": 255, "Equal": 0, "Greater": 1}
+
+
+class Unknown(Exception):
+    pass
+
+
+def _rel_values(x, y, case):
+    """relation '<' '=' '>' between two abstract integers under the case"""
+    r1, r2 = case
+    if x[0] == "const" and y[0] == "const":
+        return "<" if x[1] < y[1] else "=" if x[1] == y[1] else ">"
+    if x[0] == "op" and y[0] == "op":
+        if x[1] == y[1]:
+            return "="
+        return r1 if (x[1], y[1]) == ("A", "B") else FLIP[r1]
+    if x[0] == "dist" and y[0] == "const":
+        k = y[1]
+        kind = x[1]
+        if r1 == "=":
+            d_vs = lambda kk: "<" if 0 < kk else "=" if kk == 0 else ">"
+            return d_vs(k)
+        # exact distance |a-b| unless a wrapping difference taken the "wrong way round"
+        wrong = (kind == "wb-a" and r1 == ">") or (kind == "wa-b" and r1 == "<")
+        if kind in ("b-a", "a-b") and ((kind == "b-a") != (r1 == "<")):
+            raise Unknown("difference %s underflows on the a%sb branch" % (kind, r1))
+        if k == HALF:
+            return FLIP[r2] if wrong and r2 != "=" else r2
+        if k == 0:
+            return ">"
+        raise Unknown("distance compared with %#x instead of 0x80000000" % k)
+    if x[0] == "const" and y[0] == "dist":
+        return FLIP[_rel_values(y, x, case)]
+    raise Unknown("comparison of %s with %s" % (x[0], y[0]))
+
+
+def _abstract_run(b, F, case, a_pred, b_pred):
+    """abstract result ('None' | 'Less' | 'Equal' | 'Greater') of the body under one case"""
+    env = {}
+
+    def place(pl):
+        # operands: (*_1).0 / (*_2).0 (possibly via .get())
+        if a_pred(pl):
+            return ("op", "A")
+        if b_pred(pl):
+            return ("op", "B")
+        v = env.get(pl[0])
+        for pr in pl[1:]:
+            if pr == "*":
+                if v is not None and v[0] == "ref":
+                    v = v[1]
+                continue
+            if isinstance(pr, list) and pr[0] == "." and v is not None and v[0] == "tuple":
+                v = v[1][pr[1]] if pr[1] < len(v[1]) else None
+            elif isinstance(pr, list) and pr[0] == "as":
+                continue
+            else:
+                v = None
+        if v is None:
+            raise Unknown("value of place %s" % (pl,))
+        return v
+
+    def operand(o):
+        if o[0] in ("c", "m"):
+            return place(o[1])
+        if o[0] == "k":
+            if isinstance(o[2], bool):
+                return ("bool", o[2])
+            if isinstance(o[2], int):
+                return ("bool", bool(o[2])) if o[1] == "bool" else ("const", o[2])
+        raise Unknown("operand %s" % (o[:2],))
+
+    def rvalue(rv):
+        k = rv[0]
+        if k == "use":
+            return operand(rv[1])
+        if k in ("ref", "ptr"):
+            try:
+                return ("ref", place(rv[2]))
+            except Unknown:
+                raise
+        if k == "deref":
+            return place(rv[1])
+        if k == "cast":
+            v = operand(rv[2])
+            if v[0] == "const" and rv[1] == "IntToInt" and not rv[3].startswith("i"):
+                return v
+            if v[0] in ("op", "dist") and rv[3] in ("u32", "u64", "usize") and rv[4] in ("u32",):
+                return v
+            raise Unknown("cast %s -> %s" % (rv[4], rv[3]))
+        if k == "agg":
+            kind = rv[1]
+            if kind[0] == "tuple":
+                return ("tuple", [operand(o) for o in rv[2]])
+            if kind[0] == "adt" and kind[1] == "core::cmp::Ordering":
+                return ("ord", kind[2])
+            if kind[0] == "adt" and kind[1] == "core::option::Option":
+                return ("opt", None) if kind[2] == "None" else ("opt", operand(rv[2][0]))
+            raise Unknown("aggregate %s" % (kind[:2],))
+        if k == "discr":
+            v = place(rv[1])
+            if v[0] == "ord":
+                return ("const", ORD_DISCR[v[1]])
+            if v[0] == "opt":
+                return ("const", 0 if v[1] is None else 1)
+            raise Unknown("discriminant of %s" % v[0])
+        if k == "un" and rv[1] == "Not":
+            v = operand(rv[2])
+            if v[0] == "bool":
+                return ("bool", not v[1])
+            raise Unknown("Not of %s" % v[0])
+        if k == "bin":
+            op = rv[1]
+            x, y = operand(rv[2]), operand(rv[3])
+            if op in ("Eq", "Ne", "Lt", "Le", "Gt", "Ge"):
+                if x[0] == "bool" and y[0] == "bool" and op in ("Eq", "Ne"):
+                    return ("bool", (x[1] == y[1]) == (op == "Eq"))
+                r = _rel_values(x, y, case)
+                return ("bool", {"Eq": r == "=", "Ne": r != "=", "Lt": r == "<", "Le": r != ">", "Gt": r == ">", "Ge": r != "<"}[op])
+            if op in ("BitXor", "BitAnd", "BitOr") and x[0] == "bool" and y[0] == "bool":
+                return ("bool", {"BitXor": x[1] != y[1], "BitAnd": x[1] and y[1], "BitOr": x[1] or y[1]}[op])
+            if op in ("Shl",) and x[0] == "const" and y[0] == "const":
+                return ("const", (x[1] << y[1]) & 0xFFFFFFFF)
+            if op in ("Sub", "SubWithOverflow") and x[0] == "op" and y[0] == "op" and x[1] != y[1]:
+                kind = "b-a" if (x[1], y[1]) == ("B", "A") else "a-b"
+                under = (kind == "b-a" and case[0] == ">") or (kind == "a-b" and case[0] == "<")
+                v = ("dist", kind)
+                return ("tuple", [v, ("bool", under)]) if op == "SubWithOverflow" else v
+            if x[0] == "const" and y[0] == "const" and op in ("Lt", "Add", "Sub"):
+                pass
+            raise Unknown("operation %s on %s, %s" % (op, x[0], y[0]))
+        raise Unknown("rvalue %s" % k)
+
+    bb = 0
+    steps = 0
+    while True:
+        steps += 1
+        if steps > 400:
+            raise Unknown("no return reached")
+        blk = b.blocks[bb]
+        for st in blk["s"]:
+            if st[0] != "=":
+                continue
+            if len(st[1]) == 1:
+                try:
+                    env[st[1][0]] = rvalue(st[2])
+                except Unknown:
+                    env.pop(st[1][0], None)   # only an error if the value is needed later
+            # writes through projections are not part of the vocabulary
+        t = blk["t"]
+        k = t["k"]
+        if k == "ret":
+            v = env.get(0)
+            if v is None or v[0] != "opt":
+                raise Unknown("returned value is not an Option<Ordering> the case determines")
+            if v[1] is None:
+                return "None"
+            if v[1][0] != "ord":
+                raise Unknown("returned Some(%s)" % v[1][0])
+            return v[1][1]
+        if k in ("goto", "false", "falseunwind", "drop"):
+            bb = t["t"]
+            continue
+        if k == "assert":
+            c = operand(t["cond"])
+            if c[0] != "bool":
+                raise Unknown("assert on %s" % c[0])
+            if c[1] != bool(t["exp"]):
+                raise Unknown("panics (%s) in case a%sb" % (t["msg"][0], case[0]))
+            bb = t["t"]
+            continue
+        if k == "switch":
+            d = operand(t["d"])
+            val = int(d[1]) if d[0] in ("bool", "const") else None
+            if val is None:
+                raise Unknown("switch on %s" % d[0])
+            nxt = None
+            for v, tb in t["v"]:
+                if v == val:
+                    nxt = tb
+            bb = nxt if nxt is not None else t["o"]
+            continue
+        if k == "call":
+            fn = t["fn"] or ""
+            args = t["args"]
+            res = None
+            try:
+                if fn.endswith("Ord::cmp") and len(args) == 2:
+                    x, y = operand(args[0]), operand(args[1])
+                    x = x[1] if x[0] == "ref" else x
+                    y = y[1] if y[0] == "ref" else y
+                    res = ("ord", ORD_OF_REL[_rel_values(x, y, case)])
+                elif re.search(r"<impl u32>::abs_diff$", fn):
+                    x, y = operand(args[0]), operand(args[1])
+                    if x[0] == "op" and y[0] == "op" and x[1] != y[1]:
+                        res = ("dist", "abs")
+                elif re.search(r"<impl u32>::wrapping_sub$", fn):
+                    x, y = operand(args[0]), operand(args[1])
+                    if x[0] == "op" and y[0] == "op" and x[1] != y[1]:
+                        res = ("dist", "wb-a" if (x[1], y[1]) == ("B", "A") else "wa-b")
+                elif fn.endswith("Ordering::reverse"):
+                    x = operand(args[0])
+                    if x[0] == "ord":
+                        res = ("ord", {"Less": "Greater", "Greater": "Less", "Equal": "Equal"}[x[1]])
+                elif re.search(r"::(get|into_int|clone|to_int|into)$", fn) and len(args) == 1:
+                    x = operand(args[0])
+                    res = x[1] if x[0] == "ref" else x
+                elif fn.endswith("PartialOrd::partial_cmp") and len(args) == 2:
+                    # delegation to another serial comparison is checked by C17.deleg
+                    raise Unknown("delegates to %s" % fn)
+            except Unknown:
+                res = None
+            if t.get("dest") is not None and len(t["dest"]) == 1:
+                if res is None:
+                    env.pop(t["dest"][0], None)
+                else:
+                    env[t["dest"][0]] = res
+            if t.get("t") is None:
+                raise Unknown("diverges (%s) in case a%sb" % (fn.split("::")[-1], case[0]))
+            bb = t["t"]
+            continue
+        raise Unknown("terminator %s" % k)
+
+
+def serial_cmp_table(b, F, a_pred, b_pred):
+    table, problems = {}, []
+    for case in CASES:
+        try:
+            table[case] = _abstract_run(b, F, case, a_pred, b_pred)
+        except Unknown as e:
+            problems.append("case %s: %s" % (case, e))
+    return table, problems
+
+
+def _check_table(ctx, R, b, what, table, problems):
+    names = {("=", None): "a=b", ("<", "<"): "a<b, b-a<2^31", ("<", ">"): "a<b, b-a>2^31",
+             ("<", "="): "a<b, b-a=2^31", (">", "<"): "a>b, a-b<2^31", (">", ">"): "a>b, a-b>2^31",
+             (">", "="): "a>b, a-b=2^31"}
+    ctx.ob(R, b, "shape", not problems, "shape not recognised: %s" % "; ".join(sorted(set(problems)))[:600],
+           detail="7 abstract cases evaluated over the MIR of %s" % what)
+    for key, want in REFERENCE.items():
+        got = table.get(key, "missing")
+        ctx.ob(R, b, "case %s" % names[key], got == (want if want is not None else "None"),
+               "RFC 1982 requires %s, %s yields %s" % (want, what, got))
+    return {names[k]: v for k, v in table.items()}
+
+
 def rule_tree(ctx, F):
     R = "C17.tree"
     ctx.floor(R, 8)
     b = F.body("<base::serial::Serial as core::cmp::PartialOrd>::partial_cmp")
     if not ctx.anchor(R, "<Serial as PartialOrd>::partial_cmp", b):
         return
-    if b.back_edges():
-        ctx.ob(R, b, "shape", False, "shape not recognised: partial_cmp contains a loop")
-        return
-    A = ("field", ("arg", 1), "0")
-    B = ("field", ("arg", 2), "0")
-    paths = []  # (constraints, result)
-    bad_shape = []
-
-    def leaf_value(bb, cons):
-        # value of _0 assigned in this block
-        for st in b.blocks[bb]["s"]:
-            if st[0] == "=" and st[1] == [0]:
-                t = deep_strip(b.term_of_rvalue(st[2]))
-                if t[0] == "agg" and t[1][:2] == ("adt", "core::option::Option"):
-                    if t[1][2] == "None":
-                        return ("val", None)
-                    inner = deep_strip(t[2][0])
-                    if inner[0] == "agg" and inner[1][:2] == ("adt", "core::cmp::Ordering"):
-                        return ("val", inner[1][2])
-                    # Some(x.cmp(y)) style
-                    return ("term", inner)
-                return ("term", t)
-        return None
-
-    def dfs(bb, cons, val, depth):
-        if depth > 200:
-            bad_shape.append("path too long")
-            return
-        lv = leaf_value(bb, cons)
-        if lv is not None:
-            val = lv
-        t = b.blocks[bb]["t"]
-        if t["k"] == "ret":
-            paths.append((cons, val))
-            return
-        if t["k"] == "unreachable":
-            return
-        if t["k"] == "switch":
-            ec = _edge_constraints(b, bb, F)
-            if ec is None:
-                bad_shape.append("switch at %s not an integer ordering test" % b.where(bb))
-                return
-            for s, lab in b.succs(bb):
-                lhs, rhs, rel = ec[lab]
-                if not rel:
-                    continue
-                dfs(s, cons + [(lhs, rhs, frozenset(rel))], val, depth + 1)
-            return
-        if t["k"] == "assert":
-            # overflow assertion on a subtraction: record operand order, must not fail
-            dfs(t["t"], cons + [("assert", t["msg"], None)], val, depth + 1)
-            return
-        for s, lab in b.succs(bb):
-            dfs(s, cons, val, depth + 1)
-
-    dfs(0, [], None, 0)
-    if bad_shape:
-        ctx.ob(R, b, "shape", False, "shape not recognised: %s" % "; ".join(sorted(set(bad_shape))))
-        return
-    # classify each path
-    table = {}
-    problems = []
-    for cons, val in paths:
-        r1 = {"<", "=", ">"}
-        r2 = {"<", "=", ">"}
-        subs = []
-        for c in cons:
-            if c[0] == "assert":
-                continue
-            lhs, rhs, rel = c
-            rel = set(rel)
-            if lhs == A and rhs == B:
-                r1 &= rel
-            elif lhs == B and rhs == A:
-                r1 &= {FLIP[x] for x in rel}
-            elif lhs[0] == "bin" and lhs[1] == "Sub" and const_value(rhs) is not None:
-                if const_value(rhs) != HALF:
-                    problems.append("difference compared with %#x instead of 0x80000000" % const_value(rhs))
-                subs.append((deep_strip(lhs[2]), deep_strip(lhs[3])))
-                r2 &= rel
-            elif rhs[0] == "bin" and rhs[1] == "Sub" and const_value(lhs) is not None:
-                if const_value(lhs) != HALF:
-                    problems.append("difference compared with %#x instead of 0x80000000" % const_value(lhs))
-                subs.append((deep_strip(rhs[2]), deep_strip(rhs[3])))
-                r2 &= {FLIP[x] for x in rel}
-            else:
-                problems.append("unrecognised comparison %s vs %s" % (show(lhs), show(rhs)))
-        if val is None or val[0] != "val":
-            problems.append("a path returns a non-constant value (%s)" % (val,))
-            continue
-        for x in sorted(r1):
-            # operand order of the subtraction must match the branch (no underflow)
-            for (m, s) in subs:
-                if x == "<" and not (m == B and s == A):
-                    problems.append("on the a<b branch the difference is not other - self")
-                if x == ">" and not (m == A and s == B):
-                    problems.append("on the a>b branch the difference is not self - other")
-            if x == "=":
-                key = ("=", None)
-                if key in table and table[key] != val[1]:
-                    problems.append("case a=b maps to two results")
-                table[key] = val[1]
-                continue
-            if not subs:
-                for y in ("<", "=", ">"):
-                    key = (x, y)
-                    if key in table and table[key] != val[1]:
-                        problems.append("case %s maps to two results" % (key,))
-                    table[key] = val[1]
-                continue
-            for y in sorted(r2):
-                key = (x, y)
-                if key in table and table[key] != val[1]:
-                    problems.append("case %s maps to two results" % (key,))
-                table[key] = val[1]
-    ctx.ob(R, b, "shape", not problems, "; ".join(sorted(set(problems))),
-           detail="%d paths enumerated" % len(paths))
-    names = {("=", None): "a=b", ("<", "<"): "a<b, b-a<2^31", ("<", ">"): "a<b, b-a>2^31",
-             ("<", "="): "a<b, b-a=2^31", (">", "<"): "a>b, a-b<2^31", (">", ">"): "a>b, a-b>2^31",
-             (">", "="): "a>b, a-b=2^31"}
-    for key, want in REFERENCE.items():
-        got = table.get(key, "missing")
-        ctx.ob(R, b, "case %s" % names[key], got == want,
-               "RFC 1982 requires %s, function yields %s" % (want, got))
-    ctx.extra.setdefault("coverage", {})["decision_table"] = {names[k]: v for k, v in table.items()}
-    ctx.extra["coverage"]["exhaustive_for"] = "C17.tree: all %d CFG paths of partial_cmp" % len(paths)
+    a_pl = lambda pl: pl == [1, "*", [".", 0, "0"]]
+    b_pl = lambda pl: pl == [2, "*", [".", 0, "0"]]
+    table, problems = serial_cmp_table(b, F, a_pl, b_pl)
+    shown = _check_table(ctx, R, b, "Serial::partial_cmp", table, problems)
+    ctx.extra.setdefault("coverage", {})["decision_table"] = shown
+    ctx.extra["coverage"]["exhaustive_for"] = "C17.tree: the seven RFC 1982 cases, abstractly evaluated over the MIR of partial_cmp"
+    # the serial type of the new codec orders the same way
+    nb = F.body("<new::base::serial::Serial as core::cmp::PartialOrd>::partial_cmp")
+    if nb is not None:
+        t2, p2 = serial_cmp_table(nb, F, a_pl, b_pl)
+        shown2 = _check_table(ctx, R, nb, "new::base::serial::Serial::partial_cmp", t2, p2)
+        ctx.extra["coverage"]["decision_table_new_codec"] = shown2
 
 
 # ---------------------------------------------------------------------------
@@ -242,8 +390,15 @@ def rule_add(ctx, F):
     ctx.ob(R, b, "wrapping add of (self.0, other)", ok,
            "Serial::add must compute self.0.wrapping_add(other) (checked `+` panics at the wrap-around)")
     if wa:
-        ubs = upper_bounds(b, wa[0][0], lambda t: deep_strip(t) == ("arg", 2), F)
-        best = min([u[0] for u in ubs], default=None)
+        # the precondition must hold wherever the sum is handed out (the normal return); the pure
+        # wrapping_add itself may be computed before the assertion
+        sites = [wa[0][0]] + [rb for rb in b.return_blocks()]
+        best = None
+        for s in sites:
+            ubs = upper_bounds(b, s, lambda t: deep_strip(t) == ("arg", 2), F)
+            m = min([u[0] for u in ubs], default=None)
+            if m is not None and (best is None or m < best):
+                best = m
         ctx.ob(R, b, "precondition other <= 2^31-1", best is not None and best <= HALF,
                "the addition must be dominated by other <= 0x7FFF_FFFF (found bound: %s)"
                % (("other < %#x" % best) if best is not None else "none"))
